@@ -168,7 +168,68 @@ def m_enumerations_from_bit_mask(I, args, kw):
     return _pyvc().SList("mask_members", n, factory)
 
 
-QUALNAME_MODELS = {'kmip.core.enums.get_enumerations_from_bit_mask': m_enumerations_from_bit_mask}
+def m_all_attribute_names(I, args, kw):
+    """AttributePolicy.get_all_attribute_names(): the keys of the rule table, kept as a list whose
+    iteration visits one arbitrary name (one path per name) instead of all of them in sequence."""
+    pol = args[0]
+    if is_symbolic(pol) or not hasattr(pol, '_attribute_rule_sets'):
+        return NotImplemented
+    names = list(pol._attribute_rule_sets.keys())
+
+    def factory(I2, tag):
+        return names[I2.path.choose(len(names), "table-name")]
+    return _pyvc().SList("all_attribute_names", z3.IntVal(len(names)), factory)
+
+
+def m_secret_factory_create(I, args, kw):
+    """kmip.core.factories.secrets.SecretFactory.create(object_type, value): abstracted as a new
+    core secret of the class belonging to the object type that holds the given value dictionary
+    (event 'core.create'); key-like secrets carry a key block.  Assumed contract (its
+    field-by-field construction is C05's subject)."""
+    import importlib
+    sec = importlib.import_module('kmip.core.secrets')
+    cobj = importlib.import_module('kmip.core.objects')
+    enums = importlib.import_module('kmip.core.enums')
+    ot = I.resolve_enum(I.resolve_opt(args[1]))
+    value = args[2] if len(args) > 2 else kw.get('value')
+    cls = {enums.ObjectType.CERTIFICATE: sec.Certificate, enums.ObjectType.SYMMETRIC_KEY: sec.SymmetricKey,
+           enums.ObjectType.PUBLIC_KEY: sec.PublicKey, enums.ObjectType.PRIVATE_KEY: sec.PrivateKey,
+           enums.ObjectType.SPLIT_KEY: sec.SplitKey, enums.ObjectType.SECRET_DATA: sec.SecretData,
+           enums.ObjectType.OPAQUE_DATA: sec.OpaqueObject}.get(ot)
+    if cls is None:
+        return NotImplemented
+    I.path.session.assumptions.add("SecretFactory.create builds the core secret of the requested type from "
+                                   "exactly the given value dictionary and does not raise")
+    o = Obj(cls, {'__value__': value}, 'core-secret')
+    if cls in (sec.SymmetricKey, sec.PublicKey, sec.PrivateKey, sec.SecretData):
+        o.fields['key_block'] = Obj(cobj.KeyBlock, {'key_wrapping_data': None, '__value__': value}, 'key-block')
+    elif cls is sec.SplitKey:
+        o.fields['_key_block'] = Obj(cobj.KeyBlock, {'key_wrapping_data': None, '__value__': value}, 'key-block')
+    I.path.event('core.create', ot, value, o)
+    return o
+
+
+def m_key_wrapping_data(I, args, kw):
+    """kmip.pie.objects.Key.key_wrapping_data (getter): the dictionary assembled from the 33
+    wrapping-data columns, kept as one uninterpreted value per object (its exactness is C05's
+    subject; the request handlers only pass it on)."""
+    if len(args) != 1 or kw:
+        return NotImplemented
+    obj = args[0]
+    if not isinstance(obj, Obj):
+        return NotImplemented
+    src = obj.meta.get('copy_of') or obj
+    memo = I.path.ghost.setdefault('kwd', {})
+    if id(src) not in memo:
+        I.path._keep.append(src)
+        memo[id(src)] = Opaque('dict', 'key_wrapping_data(%s)' % (src.label or 'mo'))
+    return memo[id(src)]
+
+
+QUALNAME_MODELS = {'kmip.core.enums.get_enumerations_from_bit_mask': m_enumerations_from_bit_mask,
+                   'kmip.pie.objects.Key.key_wrapping_data': m_key_wrapping_data,
+                   'kmip.core.factories.secrets.SecretFactory.create': m_secret_factory_create,
+                   'kmip.services.server.policy.AttributePolicy.get_all_attribute_names': m_all_attribute_names}
 M.QUALNAME_MODELS = QUALNAME_MODELS
 
 NORAISE = set()        # ids of natives known not to raise
